@@ -192,7 +192,10 @@ def run(module, cfg=None, *, workers=16, timeout=1500, coverage=True, env=None, 
     if 'Temporal properties were violated' in out and not res.violated:
         res.violated = 'temporal'
     res.errors = [l for l in out.splitlines() if l.startswith('Error:')]
-    for m in re.finditer(r'^<(\w+) line \d+, col \d+ to line \d+, col \d+ of module (\w+)>: (\d+):(\d+)', out, re.M):
+    # -coverage dumps periodically: only the last dump counts (earlier ones are prefixes of it)
+    cut = out.rfind('The coverage statistics at')
+    covtext = out[cut:] if cut >= 0 else ''
+    for m in re.finditer(r'^<(\w+) line \d+, col \d+ to line \d+, col \d+ of module (\w+)(?: \([\d ]+\))?>: (\d+):(\d+)', covtext, re.M):
         name = m.group(1)
         d, g = int(m.group(3)), int(m.group(4))
         od, og = res.coverage.get(name, (0, 0))
